@@ -335,6 +335,7 @@ fn emit_rt(out: &mut Out, fmt: &str, id: u64, kind: &str, p: &Pic, buf: &Buffer,
     };
     ev["save"] = json!("ok");
     ev["nbytes"] = json!(bytes.len());
+    ev["head3"] = json!(bytes.iter().take(3).collect::<Vec<_>>());
     // the SAUCE record (if any) is not part of the token stream
     let end = if so.save_sauce { icy_engine::SauceData::extract(&bytes).ok().flatten().map_or(bytes.len(), |s| bytes.len() - s.sauce_header_len) } else { bytes.len() };
     if !tokens {
@@ -564,6 +565,32 @@ pub fn c04(a: &Args) {
         id += 1;
         run_c04(&mut outs[(id as usize) % shards], 2_000_000 + i as u64, "ctrl", &p, &o);
     }
+    // (4) CP437 cells whose codes are, as bytes, well-formed UTF-8 (see C15 family 4): at the start of the file, inside a row and
+    //     split over the end of a full-width row, under random option configurations
+    {
+        let mut r = rng(seed, 44_000);
+        let seqs: [&[u32]; 5] = [&[0xC3, 0xA9], &[0xC2, 0xB0], &[0xE2, 0x96, 0x91], &[0xEF, 0xBB, 0xBF], &[0xF0, 0x9F, 0x98, 0x80]];
+        for sq in seqs {
+            for place in 0..3 {
+                for k in 0..6 {
+                    let mut o = AnsOpts::random(&mut r);
+                    if k < 3 { o.prep = k; o.sauce = false; }
+                    if k == 0 { o = AnsOpts { sauce: false, compress: false, cuf: false, rep: false, preserve: false, longer: false, extcol: false, normws: false, prep: 0, ctrl: 0 }; }
+                    let cell = |c: u32| Cell { ch: c, fg: 7, bg: 0, flags: 0 };
+                    let hi: Vec<Cell> = sq.iter().map(|c| cell(*c)).collect();
+                    let mut rows: Vec<Vec<Cell>> = vec![];
+                    match place {
+                        0 => { let mut r0 = hi.clone(); r0.push(cell(65)); rows.push(r0); }
+                        1 => { let mut r0 = vec![cell(65), cell(66)]; r0.extend(hi.clone()); r0.push(cell(67)); rows.push(r0); }
+                        _ => { let mut r0 = vec![cell(65); 79]; r0.push(hi[0]); rows.push(r0); let mut r1: Vec<Cell> = hi[1..].to_vec(); r1.push(cell(66)); rows.push(r1); }
+                    }
+                    let p = Pic { w: 80, h: rows.len() as i32, ice: IceMode::Unlimited, rows, extra_colors: vec![] };
+                    id += 1;
+                    run_c04(&mut outs[(id as usize) % shards], 3_000_000 + id, "utf8-lookalike", &p, &o);
+                }
+            }
+        }
+    }
     let mut total = 0;
     for o in &mut outs {
         o.flush();
@@ -758,6 +785,35 @@ pub fn c15(a: &Args) {
                 id += 1;
                 n_random += 1;
                 run_c15(&mut outs[(id as usize) % shards], fmt, 2_000_000 + id, "runs", &p, (n as u64 + place) % 3);
+            }
+        }
+    }
+    // (4) CP437 cells whose codes, taken as bytes, are well-formed UTF-8 (and nothing else above 0x7F in the file): a loader that
+    //     sniffs the encoding from the content must still read them as the cells that were saved - 2-, 3- and 4-byte sequences,
+    //     inside a row, at its start / end, and split over the end of a full-width row
+    for (fmt, w) in C15_FORMATS {
+        if fmt == "ata" { continue; }
+        let seqs: [&[u32]; 5] = [&[0xC3, 0xA9], &[0xC2, 0xB0], &[0xE2, 0x96, 0x91], &[0xEF, 0xBB, 0xBF], &[0xF0, 0x9F, 0x98, 0x80]];
+        for (si, sq) in seqs.iter().enumerate() {
+            for place in 0..4 {
+                let (fg, bg) = c15_attr(fmt, 7, 0);
+                let hi: Vec<Cell> = sq.iter().map(|c| Cell { ch: *c, fg, bg, flags: 0 }).collect();
+                let a = Cell { ch: 65, ..DEFAULT_CELL };
+                let mut rows: Vec<Vec<Cell>> = vec![];
+                match place {
+                    0 => { let mut r0 = vec![a, a]; r0.extend(hi.clone()); r0.push(a); rows.push(r0); }
+                    1 => { let mut r0 = hi.clone(); r0.push(a); rows.push(r0); rows.push(vec![a]); }
+                    2 => { let mut r0 = vec![a; (w as usize) - hi.len()]; r0.extend(hi.clone()); rows.push(r0); rows.push(vec![a]); }
+                    _ => { let mut r0 = vec![a; (w as usize) - 1]; r0.push(hi[0]); rows.push(r0); let mut r1: Vec<Cell> = hi[1..].to_vec(); r1.push(a); rows.push(r1); }
+                }
+                let p = Pic { w, h: rows.len() as i32, ice: IceMode::Unlimited, rows, extra_colors: vec![] };
+                id += 1;
+                n_random += 1;
+                // (a file that BEGINS with the sequence is tried under every screen preparation: only some write a prefix)
+                let preps: Vec<u64> = if place == 1 { vec![0, 1, 2] } else { vec![(si + place) as u64 % 3] };
+                for prep in preps {
+                    run_c15(&mut outs[(id as usize) % shards], fmt, 3_000_000 + id, "utf8-lookalike", &p, prep);
+                }
             }
         }
     }
